@@ -128,6 +128,10 @@ func (rm *RequestManager) requestTask(requestID graphsync.RequestID) executor.Re
 			// take the lowest nonzero budget (global or per-request)
 			maxLinks = ipr.maxLinks
 		}
+		if maxLinks > math.MaxInt64 {
+			// the traversal counts its budget down in an int64
+			maxLinks = math.MaxInt64
+		}
 		if maxLinks > 0 {
 			budget = &traversal.Budget{
 				NodeBudget: math.MaxInt64,
